@@ -200,7 +200,7 @@ PROPS = {
     },
     "C23": {
         "level": "model_checking",
-        "kani": ["c23_degrees"],
+        "kani": ["c23_degrees", "c22_boundary"],
         "verus": [],
         "level_text": "Integer clauses as contracts: evaluation-degree formula and sufficient power-of-two minimum blowup for "
                       "every base degree and trace length 2^3..2^31 (cycle shapes [], [c], [c, d]); enough composition "
@@ -229,6 +229,31 @@ PROPS = {
         "level_note": "BOUNDED: F_17, one AIR shape, length 8, no auxiliary segment, one exemption. BTreeMap in "
                       "air/src/air/mod.rs replaced by the sorted-Vec model under cfg(kani). Fragment-based (concurrent) "
                       "filling is not covered.",
+    },
+    "C01": {
+        "level": "other",
+        "kani": ["c05_air", "c23_degrees", "c28_rowhash_verifier", "c28_rowhash_prover"],
+        "verus": [],
+        "level_text": "Completeness of the whole prover/verifier pair is not expressible as a function contract; what is "
+                      "decided are interface obligations between prover-side producers and verifier-side consumers, each "
+                      "necessary for completeness: table sizes up to 255 x 255 accepted, enough composition columns for "
+                      "every accepted degree/exemption declaration, prover and verifier row digests equal to one shared "
+                      "rule. A refuted obligation is a true violation; discharging them all does not prove C01.",
+        "level_note": "Necessary conditions only (level other). Not covered: constraint evaluation, DEEP composition, FRI "
+                      "folding algebra, OOD consistency, every data-parallel path.",
+        "explanation": "necessary-condition contracts (Kani, complete/bounded as labelled per obligation) on producer/"
+                       "consumer interfaces named in the property's anchors; see level_text",
+    },
+    "C22": {
+        "level": "model_checking",
+        "kani": ["c22_boundary"],
+        "verus": [],
+        "level_text": "On the real generic code at F_17 (trace length 8): assertion divisors vanish exactly on the asserted "
+                      "steps with degree equal to their number; each boundary constraint is zero at an asserted step's "
+                      "domain point exactly when the trace holds the asserted value (all assertion kinds, symbolic values).",
+        "level_note": "BOUNDED: F_17, trace length 8, sequences of 2 or 4 values (never 64+), one constraint at a time. "
+                      "Order independence of coefficient assignment (prepare_assertions) and the prover-side specialised "
+                      "evaluators are not under contract. BTreeMap/BTreeSet replaced by the sorted-Vec model under cfg(kani).",
     },
 }
 
